@@ -3,7 +3,7 @@
    Models: model/ExScanner.v (xscanner, xinput, VisitTemplate loop), model/ExLexer.v + gen/GrammarE3.v (generated
    lexer, rule table regenerated from the .g4 on every run), model/ExParser.v (generated parser + visitor),
    lib/Quote.v (strconv.Quote/Unquote), model/ExTemplate.v (Evaluator.Template on the text fragment).
-   Parameters of the theorems stand for Go library tables: isln = unicode.IsLetter||IsNumber, lower =
+   The arguments isln, lower, printable of the theorems stand for Go library tables: isln = unicode.IsLetter||IsNumber, lower =
    unicode.ToLower, printable = unicode.IsPrint; the hypotheses on them are facts of those tables. *)
 From Coq Require Import List NArith Bool.
 From Verif Require Import lib.Quote model.ExScanner model.ExTemplate proofs.ExScannerBound proofs.QuoteProofs
